@@ -81,3 +81,15 @@ pub fn begin_execution() {
         unsafe { std::alloc::dealloc(p as *mut u8, layout) };
     }
 }
+
+/// After a failed execution: loom's runtime is gone, the `Track` objects must not run their
+/// destructors (they would look for it).
+pub fn forget_all() {
+    LEDGER.with(|l| {
+        if let Ok(mut l) = l.try_borrow_mut() {
+            for (_, (_, t)) in l.live.drain() {
+                std::mem::forget(t);
+            }
+        }
+    });
+}
